@@ -115,4 +115,4 @@ def run(ctx):
             continue
         case, info = g
         annotate(rng, case, info)
-        check_case(ctx, case)
+        ctx.guard(check_case, case)
